@@ -1,7 +1,7 @@
 //! Engine `subhist` (C04, C06): server-side subscription histories on a REAL `jsonrpsee_server::Server`.
 //!
 //! One input line = one history:
-//!   `[E<server|tower>] K<cap> C<nconns> step step ...`        (steps are comma-separated tokens, see `parse_step`)
+//!   `[E<server|tower|towermw>] K<cap> C<nconns> step step ...`        (steps are comma-separated tokens, see `parse_step`)
 //!   E = the ENTRY POINT the server is assembled through (default `server`):
 //!     server  `Server::builder().set_config(..).set_rpc_middleware(..).build(addr)` + `Server::start(module)`
 //!     tower   `Server::builder()...to_service_builder()`: ONE `TowerServiceBuilder` per history (same config: cap, id
@@ -9,6 +9,9 @@
 //!             stop_handle)`), each connection served from the harness's own accept loop with
 //!             `serve_with_graceful_shutdown` (the shape of examples/jsonrpsee_as_service.rs); `stop` = the
 //!             `ServerHandle` of `stop_channel()`.  Steps and outputs are the same.
+//!     towermw like tower, but the shared builder carries no rpc middleware: it is set per accepted connection on the
+//!             clone (`shared.clone().set_rpc_middleware(mw).build(..)`), no explicit `connection_id`: the connection
+//!             ids must still come from the ONE shared counter
 //!   sub,c,req | uns,c,req,target | acc,s | rej,s,code | cl,s,src,k | dr,s,k | snd,s,k,x | tsnd,s,k,x | isc,s,k |
 //!   ret,s,n|m|e,x | ab,s,k|d (abandon the subscribe call of s) | dp,s (drop the pending sink unanswered) | cd,c | stop
 //! One output line = the ordered observations, as JSON with sorted keys:
@@ -737,6 +740,9 @@ fn parse_step(tok: &str) -> Option<Step> {
 enum Entry {
 	Server,
 	Tower,
+	/// like `Tower`, but the rpc middleware is set per accepted connection on a clone of the shared builder
+	/// (`shared.clone().set_rpc_middleware(..).build(..)`, the pattern of examples/jsonrpsee_as_service.rs)
+	TowerMw,
 }
 
 async fn run_case(entry: Entry, cap: u32, nconns: usize, steps: Vec<Step>) -> String {
@@ -793,7 +799,7 @@ async fn run_case(entry: Entry, cap: u32, nconns: usize, steps: Vec<Step>) -> St
 			let addr = server.local_addr().unwrap();
 			(addr, server.start(module))
 		}
-		Entry::Tower => {
+		Entry::Tower | Entry::TowerMw => {
 			let mut listener = None;
 			for attempt in 0..5u64 {
 				match tokio::net::TcpListener::bind("127.0.0.1:0").await {
@@ -809,24 +815,46 @@ async fn run_case(entry: Entry, cap: u32, nconns: usize, steps: Vec<Step>) -> St
 			let (stop_handle, server_handle) = stop_channel();
 			let mw_ctl = ctl.clone();
 			let mw = RpcServiceBuilder::new().layer_fn(move |service| Abandon { service, ctl: mw_ctl.clone() });
-			// ONE builder per history; every accepted TCP connection gets a service built from a CLONE of it
-			let svc_builder = Server::builder().set_config(cfg.clone()).set_rpc_middleware(mw).to_service_builder();
-			let methods: Methods = module.into();
-			tokio::spawn(async move {
-				loop {
-					let sock = tokio::select! {
-						r = listener.accept() => match r { Ok((s, _)) => s, Err(_) => continue },
-						_ = stop_handle.clone().shutdown() => break,
-					};
-					let _ = sock.set_nodelay(true);
-					let conn_svc = svc_builder.clone().build(methods.clone(), stop_handle.clone());
-					let svc = tower::service_fn(move |req: http::Request<hyper::body::Incoming>| {
-						let mut conn_svc = conn_svc.clone();
-						async move { conn_svc.call(req).await }.boxed()
-					});
-					tokio::spawn(serve_with_graceful_shutdown(sock, svc, stop_handle.clone().shutdown()));
-				}
-			});
+			if entry == Entry::Tower {
+				// ONE builder per history; every accepted TCP connection gets a service built from a CLONE of it
+				let svc_builder = Server::builder().set_config(cfg.clone()).set_rpc_middleware(mw).to_service_builder();
+				let methods: Methods = module.into();
+				tokio::spawn(async move {
+					loop {
+						let sock = tokio::select! {
+							r = listener.accept() => match r { Ok((s, _)) => s, Err(_) => continue },
+							_ = stop_handle.clone().shutdown() => break,
+						};
+						let _ = sock.set_nodelay(true);
+						let conn_svc = svc_builder.clone().build(methods.clone(), stop_handle.clone());
+						let svc = tower::service_fn(move |req: http::Request<hyper::body::Incoming>| {
+							let mut conn_svc = conn_svc.clone();
+							async move { conn_svc.call(req).await }.boxed()
+						});
+						tokio::spawn(serve_with_graceful_shutdown(sock, svc, stop_handle.clone().shutdown()));
+					}
+				});
+			} else {
+				// ONE builder per history; every accepted TCP connection gets a service built from a CLONE of it
+				// the shared builder carries NO rpc middleware: it is set per connection on the clone
+				let svc_builder = Server::builder().set_config(cfg.clone()).to_service_builder();
+				let methods: Methods = module.into();
+				tokio::spawn(async move {
+					loop {
+						let sock = tokio::select! {
+							r = listener.accept() => match r { Ok((s, _)) => s, Err(_) => continue },
+							_ = stop_handle.clone().shutdown() => break,
+						};
+						let _ = sock.set_nodelay(true);
+						let conn_svc = svc_builder.clone().set_rpc_middleware(mw.clone()).build(methods.clone(), stop_handle.clone());
+						let svc = tower::service_fn(move |req: http::Request<hyper::body::Incoming>| {
+							let mut conn_svc = conn_svc.clone();
+							async move { conn_svc.call(req).await }.boxed()
+						});
+						tokio::spawn(serve_with_graceful_shutdown(sock, svc, stop_handle.clone().shutdown()));
+					}
+				});
+			}
 			(addr, server_handle)
 		}
 	};
@@ -925,6 +953,7 @@ fn handle_line(line: &str) -> String {
 			entry = match e {
 				"server" => Entry::Server,
 				"tower" => Entry::Tower,
+				"towermw" => Entry::TowerMw,
 				_ => return r#"{"fatal":"bad-entry"}"#.into(),
 			};
 		} else if let Some(k) = tok.strip_prefix('K') {
